@@ -17,7 +17,7 @@ pub fn def() -> PropDef {
         nontrivial,
         rule: "client programs of 1-3 clients with 0-4 restart requests (Addr::restart, Context::restart) at any position among messages through all handle kinds; restart strategy default / recreate-from-default / non-restartable; interval, interval_with, delayed_send and delayed_exec timers registered in started and in handlers; started failing on the n-th start; x seeded schedules on the virtual clock; history tagged with incarnation numbers, timers with the incarnation that registered them; non-trivial = a restart was processed with messages handled on both sides of it (or with a live timer); distinct = distinct order of client-op and callback events",
         needed_probes: &["c07_boundary_checked", "c07_recreate_seen", "c07_nonrestartable_request", "c07_restart_with_live_timer", "c07_start_error_on_restart"],
-        quick_runs: 100_000,
+        quick_runs: 200_000,
         thorough_runs: 2_000_000,
         block: 1,
         flavours: &["tokio"],
